@@ -270,6 +270,12 @@ func Gen(t *rapid.T) *Case {
 				n = x
 			}
 		}
+		if rapid.IntRange(0, 5).Draw(t, "roundN") == 0 { // round counts: whole multiples of a power of ten or of two, and their neighbours
+			u := RoundUnitsN[rapid.IntRange(0, len(RoundUnitsN)-1).Draw(t, "roundNunit")]
+			if x := u*rapid.Int64Range(1, 1+maxN/u).Draw(t, "roundNk") + int64(rapid.IntRange(-1, 1).Draw(t, "roundNoff")); x >= 0 && x <= maxN {
+				n = x
+			}
+		}
 		c.Ns = append(c.Ns, n)
 		d := rapid.Int64Range(0, day).Draw(t, "d")
 		if rapid.IntRange(0, 3).Draw(t, "longD") == 0 {
@@ -289,10 +295,28 @@ func Gen(t *rapid.T) *Case {
 				d = x
 			}
 		}
+		if rapid.IntRange(0, 3).Draw(t, "roundD") == 0 { // round durations: whole microseconds ... whole minutes, and their neighbours
+			u := RoundUnitsD[rapid.IntRange(0, len(RoundUnitsD)-1).Draw(t, "roundDunit")]
+			k := rapid.Int64Range(1, day/u).Draw(t, "roundDk")
+			if rapid.Bool().Draw(t, "roundDsmall") {
+				k = int64(rapid.IntRange(1, 2000).Draw(t, "roundDkSmall"))
+			}
+			if x := u*k + int64(rapid.IntRange(-1, 1).Draw(t, "roundDoff")); x >= 0 && x <= day {
+				d = x
+			}
+		}
 		c.Ds = append(c.Ds, d)
 	}
 	return c
 }
+
+// Round units: durations people write down (1 us ... 1 min) and counts that are
+// powers of ten or block sizes; code that special-cases "whole" arguments is
+// only reached by these.
+var (
+	RoundUnitsD = []int64{1e3, 1e4, 1e5, 1e6, 1e7, 1e8, 1e9, 6e10}
+	RoundUnitsN = []int64{10, 100, 1000, 10000, 1e6, 64, 256, 1024, 4096, 65536}
+)
 
 var maxIntRat = new(big.Rat).SetInt64(math.MaxInt - 1)
 
